@@ -42,6 +42,7 @@ def run(ctx) -> None:
         def one(v=v):
             jf = JoinModel(ctx.prog, v)
             facts[v] = jf
+            jr.no_early_result(ctx, jf, "a.no-early-result")
             jr.left_complete(ctx, jf)
             jr.padding(ctx, jf)
             if v == "full_join":
@@ -49,7 +50,6 @@ def run(ctx) -> None:
             jr.buffers(ctx, jf, want_contexts=("matched", "unmatched-left") + (("sweep",) if v == "full_join" else ()))
             _ab(ctx, jf)
             jr.wrap(ctx, jf)
-            jr.no_early_result(ctx, jf, "a.no-early-result")
         ctx.section(f"determinism:{v}", jr.determinism, ctx, v, "h.determinism")
         ctx.section(f"join-structure:{v}", one)
         ctx.section(f"purity:{v}", jr.purity, ctx, v)
